@@ -28,6 +28,19 @@ SibUnit(S) ==
   IN [prop |-> "C14", fam |-> "siblings", schema |-> Obj(ps, <<>>), defs |-> <<>>,
       docs |-> <<doc>> \o [i \in DOMAIN ks |-> one(i)], nobuild |-> <<>>]
 
+(* ---- properties whose names map to the field the struct adds for its additional properties ---- *)
+ApUnit ==
+  \* ... and to the methods the struct gets (a: a bound, so that there IS an unmarshaler)
+  LET ps == <<[k |-> "a", s |-> ("type" :> <<"integer">>) @@ ("minimum" :> JNum(0))], [k |-> "additionalProperties", s |-> Int_],
+              [k |-> "additional_properties", s |-> Int_], [k |-> "unmarshalJSON", s |-> Int_], [k |-> "unmarshal_yaml", s |-> Int_]>>
+      sch == Obj(ps, <<>>) @@ ("additionalProperties" :> [k |-> "s", s |-> Int_])
+  IN [prop |-> "C14", fam |-> "apfield", schema |-> sch, defs |-> <<>>,
+      docs |-> << JObj(<<KV("a", JNum(4)), KV("additionalProperties", JNum(8)), KV("additional_properties", JNum(12))>>),
+                  JObj(<<KV("a", JNum(4)), KV("unmarshalJSON", JNum(24)), KV("unmarshal_yaml", JNum(28))>>),
+                  JObj(<<KV("a", JNum(4)), KV("additionalProperties", JNum(8)), KV("additional_properties", JNum(12)), KV("extra", JNum(16))>>),
+                  JObj(<<KV("additional_properties", JNum(12)), KV("other", JNum(20))>>) >>,
+      nobuild |-> <<>>]
+
 (* ---- type names ---- *)
 TypeUnit(v) ==
   IF v = 1 THEN
@@ -92,13 +105,14 @@ CapUnit(i) ==
       opts |-> [capitalizations |-> CapLists[i]]]
 
 Pars(f) == CASE f = "siblings" -> Subsets [] f = "types" -> {1, 2} [] f = "caps" -> DOMAIN CapLists [] f = "typeset" -> NodePars
+             [] f = "apfield" -> {1}
 u == CASE fam = "siblings" -> SibUnit(par) [] fam = "types" -> TypeUnit(par) [] fam = "caps" -> CapUnit(par)
-       [] fam = "typeset" -> NodeUnit(par[1], par[2])
+       [] fam = "typeset" -> NodeUnit(par[1], par[2]) [] fam = "apfield" -> ApUnit
 Set == picked
 
 DesignOK == Set => LET unit == u IN Valid(unit.defs, unit.schema, unit.docs[1], {}, "decl", NoLim) = Acc
 AsIsOK == TRUE
-Init == fam \in {"siblings", "types", "caps", "typeset"} /\ par = 0 /\ picked = FALSE
+Init == fam \in {"siblings", "types", "caps", "typeset", "apfield"} /\ par = 0 /\ picked = FALSE
 Pick == ~picked /\ picked' = TRUE /\ par' \in Pars(fam) /\ UNCHANGED fam
 Next == Pick
 Spec == Init /\ [][Next]_vars
